@@ -4,7 +4,7 @@
    adjoint and norm bound, convex functionals with their proximal maps), and
    is the carrier of the refutation in C12/Refuted.v. *)
 From Coq Require Import Reals Lra Lia Psatz List Bool.
-From Verif Require Import Base.Num C12.Model C12.Space.
+From Verif Require Import Base.Num C12.Model C12.Space C12.ProofsCG.
 Import ListNotations.
 Local Open Scope R_scope.
 
@@ -68,3 +68,18 @@ Qed.
 (* a sub-gradient inclusion that holds: 0 in d|.|(0), i.e. 0 minimises |x| *)
 Lemma f_abs_subgrad0 : subgrad R1 f_abs 0 0.
 Proof. split; cbn; auto. intros z _. rewrite Rabs_R0. pose proof (Rabs_pos z). lra. Qed.
+
+(* R has dimension <= 1: of two orthogonal reals one is zero; x |-> c x is positive definite for c > 0 *)
+Lemma R1_dim : dim_le R1 1.
+Proof.
+  intros l Hl Ho. destruct l as [|a [|b [|c l]]]; cbn in Hl; try discriminate.
+  inversion Ho as [|? ? Ha _]; subst. inversion Ha as [|? ? Hab _]; subst. cbn in Hab.
+  apply Rmult_integral in Hab. destruct Hab as [H0|H0]; [exists a | exists b]; cbn; auto.
+Qed.
+Lemma scal_op_definite c (x : R1) : 0 < c -> <<x, scal_op c x>> = 0 -> x = vnull.
+Proof.
+  intros Hc; cbn. intros H.
+  assert (H1 : c * (x * x) = 0) by (rewrite <- H; ring).
+  apply Rmult_integral in H1. destruct H1 as [H1|H1]; [lra|].
+  apply Rmult_integral in H1. destruct H1; auto.
+Qed.
